@@ -13,6 +13,7 @@ DEPS = {'C01': ['classes', 'dicts', 'simplify', 'shapes', 'lookup', 'values', 'i
         'C12': ['stack', 'stackadd'],
         'C13': ['classes', 'simplify', 'shapes'],
         'C14': ['filter'],
+        'C15': ['extract'],
         'C16': ['phoenix'],
         'C17': ['orient'],
         'C18': ['group'],
@@ -36,6 +37,7 @@ GROUP_THEOREMS = {
     'insert': ['change_class_is_model', 'reclassify_is_model', 'insert_dispatch_is_model', 'insert_slice_is_model', 'insert_non_slice_is_model', 'insert_sample_is_model'],
     'subset': ['copy_slice_is_model', 'copy_sample_is_model', 'get_subset_slice_axis_is_model', 'get_subset_spatial_axis_copies',
                'get_subset_sample_axis_is_model'],
+    'extract': ['ignore_private_is_model', 'ignore_pixel_data_is_model', 'ignore_overlay_data_is_model', 'ignore_color_lut_data_is_model'],
     'cli': ['cli_out_name_is_model'],
     'group': ['group_place_is_model', 'group_place_keeps_keys_distinct'],
     'filter': ['key_regex_filter_is_model'],
